@@ -244,7 +244,11 @@ func probes(d *auto.DFA) []rune {
 	}
 	for _, a := range d.Symbols() {
 		r := rune(a)
-		add(r)
+		if !seen[r] {
+			// every symbol of the automaton, also one that is no code point (an eight-digit escape)
+			seen[r] = true
+			out = append(out, r)
+		}
 		add(r - 1)
 		add(r + 1)
 	}
